@@ -75,11 +75,20 @@ pub(crate) mod verif_value {
                 assert!(k < 16, "evaluation log overflow");
                 ev::LOG_NODE[k] = i;
                 ev::LOG_DATA[k] = data as *const Value;
+                ev::LOG_DATA_FP[k] = ev::fingerprint(data);
                 ev::LOG_N = k + 1;
-                match ev::OUT_CLASS[i] {
+                let (class, out) = if i == ev::MULTI_NODE {
+                    let c = ev::MULTI_CALLS;
+                    assert!(c < 6, "per-element node evaluated more often than planned");
+                    ev::MULTI_CALLS = c + 1;
+                    (ev::MULTI_CLASS[c], ev::MULTI_VAL[c])
+                } else {
+                    (ev::OUT_CLASS[i], ev::OUT_VAL[i])
+                };
+                match class {
                     0 => Err(Error::UnexpectedError(String::new())),
-                    1 => Ok(Evaluated::New(crate::verif_support::value_clone_shallow(&*ev::OUT_VAL[i]))),
-                    _ => Ok(Evaluated::Raw(&*ev::OUT_VAL[i])),
+                    1 => Ok(Evaluated::New(crate::verif_support::value_clone_shallow(&*out))),
+                    _ => Ok(Evaluated::Raw(&*out)),
                 }
             }
         }
